@@ -3,7 +3,7 @@
 # /tmp/seed/<ID> (worktree wt, patch.diff, demo.py, meta.json) and run our checks on it. Never uses git stash
 # (the stash stack is shared between worktrees). SKIP_TESTS=1 skips the repository test-suite run.
 ID=$1; shift
-D=/tmp/seed/$ID; WT=$D/wt
+D=${SEED_BASE:-/tmp/seed}/$ID; WT=$D/wt
 OUT=$D/eval.txt; : > $OUT
 cd $WT || exit 2
 git checkout -q -- . && git apply $D/patch.diff || { echo "patch does not apply" >> $OUT; cat $OUT; exit 2; }
